@@ -357,10 +357,48 @@ static RESULT: AtomicU32 = AtomicU32::new(0);
 
 /// read with timeout `d_ns`, the peer writes at virtual time `at_ns` (0 = never).
 /// `ops`: number of reads on the same socket (2 = stale timer case); the peer writes one byte per op
-fn read_timeout(e: &'static Engine, workers: usize, d_ns: u64, at_ns: &'static [u64], reader_delay_ns: u64) {
+enum RSock {
+    Unix(UnixStream),
+    Tcp(TcpStream),
+}
+impl RSock {
+    fn read(&mut self, buf: &mut [u8]) -> std::io::Result<usize> {
+        match self {
+            RSock::Unix(s) => s.read(buf),
+            RSock::Tcp(s) => s.read(buf),
+        }
+    }
+}
+enum WSock {
+    Unix(UnixStream),
+    Tcp(std::net::TcpStream),
+}
+impl WSock {
+    fn write_all(&mut self, buf: &[u8]) -> std::io::Result<()> {
+        match self {
+            WSock::Unix(s) => s.write_all(buf),
+            WSock::Tcp(s) => s.write_all(buf),
+        }
+    }
+}
+
+/// `tcp`: the reader is a may TcpStream (its own read path in net/tcp.rs), the peer a plain std socket
+fn read_timeout(e: &'static Engine, workers: usize, d_ns: u64, at_ns: &'static [u64], reader_delay_ns: u64, tcp: bool) {
+    use std::os::unix::io::{FromRawFd, IntoRawFd};
     rt_init(workers);
-    let (mut a, mut b) = UnixStream::pair().unwrap();
-    b.set_read_timeout(Some(Duration::from_nanos(d_ns))).unwrap();
+    let (mut a, mut b) = if tcp {
+        let l = std::net::TcpListener::bind("127.0.0.1:0").unwrap();
+        let c = std::net::TcpStream::connect(l.local_addr().unwrap()).unwrap();
+        let (srv, _) = l.accept().unwrap();
+        srv.set_nodelay(true).unwrap();
+        let b = unsafe { TcpStream::from_raw_fd(c.into_raw_fd()) };
+        b.set_read_timeout(Some(Duration::from_nanos(d_ns))).unwrap();
+        (WSock::Tcp(srv), RSock::Tcp(b))
+    } else {
+        let (a, b) = UnixStream::pair().unwrap();
+        b.set_read_timeout(Some(Duration::from_nanos(d_ns))).unwrap();
+        (WSock::Unix(a), RSock::Unix(b))
+    };
     let results: Arc<Mutex<Vec<(bool, u64, u64)>>> = Arc::new(Mutex::new(vec![]));
     e.begin();
     let r2 = results.clone();
@@ -390,7 +428,7 @@ fn read_timeout(e: &'static Engine, workers: usize, d_ns: u64, at_ns: &'static [
     });
     // the writer is a coroutine, or (when the read is timed to meet the data) a plain thread, so that the write is
     // not serialised with the reader's wake-up on the timer thread
-    let keep: Arc<Mutex<Option<UnixStream>>> = Arc::new(Mutex::new(None));
+    let keep: Arc<Mutex<Option<WSock>>> = Arc::new(Mutex::new(None));
     let k2 = keep.clone();
     let writer = move || {
         let start = may::verif::now();
@@ -596,14 +634,18 @@ pub fn build_c18(quick: bool) -> Vec<Scenario> {
     let p = "C18";
     for w in [1usize, 2] {
         for d in [500_000u64, MS, 3 * MS / 2] {
-            v.push(Scenario::new(p, "read_timeout", format!("read_timeout.{}ns.never.w{}", d, w), Arc::new(move |e| read_timeout(e, w, d, &[0], 0))).t2());
+            v.push(Scenario::new(p, "read_timeout", format!("read_timeout.{}ns.never.w{}", d, w), Arc::new(move |e| read_timeout(e, w, d, &[0], 0, false))).t2());
         }
-        v.push(Scenario::new(p, "read_timeout", format!("read_timeout.2ms.data_at_1ms.w{}", w), Arc::new(move |e| read_timeout(e, w, 2 * MS, &[MS], 0))).t2());
-        v.push(Scenario::new(p, "read_timeout", format!("read_timeout.1ms.data_at_3ms.w{}", w), Arc::new(move |e| read_timeout(e, w, MS, &[3 * MS], 0))).t2());
+        v.push(Scenario::new(p, "read_timeout", format!("read_timeout.2ms.data_at_1ms.w{}", w), Arc::new(move |e| read_timeout(e, w, 2 * MS, &[MS], 0, false))).t2());
+        v.push(Scenario::new(p, "read_timeout", format!("read_timeout.1ms.data_at_3ms.w{}", w), Arc::new(move |e| read_timeout(e, w, MS, &[3 * MS], 0, false))).t2());
         // two operations on one socket: the first completes early, the second must not inherit its timer
-        v.push(Scenario::new(p, "stale_timer", format!("read_timeout.2ms.early_then_never.w{}", w), Arc::new(move |e| read_timeout(e, w, 2 * MS, &[MS / 2, 0], 0))).t2());
-        v.push(Scenario::new(p, "stale_timer", format!("read_timeout.2ms.never_then_data.w{}", w), Arc::new(move |e| read_timeout(e, w, 2 * MS, &[0, 3 * MS], 0))).t2());
-        v.push(Scenario::new(p, "stale_timer", format!("read_timeout.2ms.read_meets_data_then_never.w{}", w), Arc::new(move |e| read_timeout(e, w, 2 * MS, &[MS / 2, 0], MS / 2))).t2().bound(2));
+        v.push(Scenario::new(p, "stale_timer", format!("read_timeout.2ms.early_then_never.w{}", w), Arc::new(move |e| read_timeout(e, w, 2 * MS, &[MS / 2, 0], 0, false))).t2());
+        v.push(Scenario::new(p, "stale_timer", format!("read_timeout.2ms.never_then_data.w{}", w), Arc::new(move |e| read_timeout(e, w, 2 * MS, &[0, 3 * MS], 0, false))).t2());
+        v.push(Scenario::new(p, "stale_timer", format!("read_timeout.2ms.read_meets_data_then_never.w{}", w), Arc::new(move |e| read_timeout(e, w, 2 * MS, &[MS / 2, 0], MS / 2, false))).t2().bound(2));
+        // the same over TCP (TcpStream has its own read path)
+        v.push(Scenario::new(p, "read_timeout", format!("tcp.read_timeout.2ms.data_at_1ms.w{}", w), Arc::new(move |e| read_timeout(e, w, 2 * MS, &[MS], 0, true))).t2());
+        v.push(Scenario::new(p, "read_timeout", format!("tcp.read_timeout.1500000ns.never.w{}", w), Arc::new(move |e| read_timeout(e, w, 3 * MS / 2, &[0], 0, true))).t2());
+        v.push(Scenario::new(p, "stale_timer", format!("tcp.read_timeout.2ms.read_meets_data_then_never.w{}", w), Arc::new(move |e| read_timeout(e, w, 2 * MS, &[MS / 2, 0], MS / 2, true))).t2().bound(2));
         for what in [Blocked::Read, Blocked::Accept, Blocked::UdpRecv] {
             v.push(Scenario::new(p, "cancel_io", format!("cancel_io.{:?}.w{}", what, w).to_lowercase(), Arc::new(move |e| cancel_io(e, w, what))));
         }
